@@ -288,7 +288,7 @@ def run(ctx, report: Report) -> None:
         r3.note('docs/src/markdown/selectors/pseudo-classes.md not present: documentation clause skipped')
 
     # ---- R5 (the whole pipeline by interpretation, bounded) --------------------------------------------------------------
-    r5 = report.rule('C11-R5', 'case rules per document type on a tree of case variants (whole pipeline; bounded)', floor=187)
+    r5 = report.rule('C11-R5', 'case rules per document type on a tree of case variants (whole pipeline; bounded)', floor=197)
     from .e2ematch import case_rules_table
     case_rules_table(ctx, r5)
 
